@@ -159,6 +159,7 @@ type Unit struct {
 	curBlock   *ssa.BasicBlock
 	scopeBlk   *ssa.BasicBlock
 	bytesCache map[string]Term
+	groundHints []string
 	boundNow   map[string]bool
 	retReach []Term
 }
